@@ -158,6 +158,13 @@ namespace {
         phase_end(t);
         ev(2, idx);
         t.done.set();
+        if (t.prio & 8)
+        {
+            // an interrupt() that raced with the end of the task: requested, never delivered (no interruption point
+            // follows). The thread object is recycled; whoever runs on it next must still run to completion.
+            pika::threads::detail::get_thread_id_data(pika::threads::detail::get_self_id())->interrupt(true);
+            probe("returned_with_interruption_requested");
+        }
     }
 
     void submit(int idx)
@@ -229,6 +236,7 @@ namespace {
                 op.v[0] = i == 0 || r.chance(1, 5) ? -1 : (int64_t) r.below((uint64_t) i);
                 op.v[1] = (int64_t) r.below(API_COUNT);
                 op.v[2] = (r.chance(2, 3) ? 0 : (int64_t) r.below(4)) | (spin_waits && r.chance(1, 2) ? 4 : 0);
+                if (r.chance(1, 6)) op.v[2] |= 8;    // an interruption request reaches the task when it is about to return
                 op.v[3] = r.chance(2, 3) ? 0 : (int64_t) r.below(4);
                 op.v[4] = r.chance(1, 4) ? (int64_t) r.below(16) : -1;
                 op.v[5] = r.chance(1, 2) ? 0 : r.range(1, 4);
